@@ -17,6 +17,13 @@ class VRange(Value):
         self.lo, self.hi, self.rev = lo, hi, rev
 
 
+class VGenCall(Value):
+    """an un-consumed call of a repo generator function that has a contract"""
+    def __init__(self, contract, fn, args, kwargs):
+        self.shape = None
+        self.contract, self.fn, self.args, self.kwargs = contract, fn, args, kwargs
+
+
 class VView(Value):
     """dict view / snapshot: keys | values | items of a dict object"""
     def __init__(self, d, kind):
@@ -311,6 +318,8 @@ def next_of_gen(ex, gen, default):
     or none does and the default is returned"""
     P = ex.path
     seq = gen.seq
+    if isinstance(seq, VRange):
+        return next_of_range_gen(ex, gen, default)
     lst = seq.inner if type(seq).__name__ == 'VEnumerate' else seq
     if not (isinstance(lst, SRef) and lst.shape.cls in CONTAINERS and CONTAINERS[lst.shape.cls][0] == 'list'):
         raise Unsupported('next() of a generator over %r' % (seq,))
@@ -331,6 +340,43 @@ def next_of_gen(ex, gen, default):
     return default
 
 
+def next_of_range_gen(ex, gen, default):
+    """next(f(i) for i in range(lo, hi) if cond(i)[, default]): the first i
+    that satisfies cond, or StopIteration / the default when none does.  When
+    cond is `i not in S` for a set S, "none does" means range(lo, hi) is a
+    subset of S, hence hi - lo <= |S| (lemmas/SetCard.lean: range_subset_card)"""
+    import ast as _ast
+    P = ex.path
+    rng = gen.seq
+    if rng.rev:
+        raise Unsupported('next() over a reversed range')
+    g = gen.node.generators[0]
+    if P.choose(2) == 0:
+        r = z3.Int(fresh_name('first'))
+        P.assume(z3.And(r >= rng.lo, r < rng.hi))
+        item, cond, elt = gen.element(ex, SV(IntS, r))
+        P.assume(cond)
+        k = z3.Int(fresh_name('k'))
+        _, condk, _ = gen.element(ex, SV(IntS, k))
+        P.assume(z3.ForAll([k], z3.Implies(z3.And(k >= rng.lo, k < r), z3.Not(condk))))
+        return elt()
+    k = z3.Int(fresh_name('k'))
+    _, condk, _ = gen.element(ex, SV(IntS, k))
+    P.assume(z3.ForAll([k], z3.Implies(z3.And(k >= rng.lo, k < rng.hi), z3.Not(condk))))
+    if len(g.ifs) == 1 and isinstance(g.ifs[0], _ast.Compare) and len(g.ifs[0].ops) == 1 and \
+            isinstance(g.ifs[0].ops[0], _ast.NotIn) and isinstance(g.ifs[0].left, _ast.Name) and \
+            isinstance(g.target, _ast.Name) and g.ifs[0].left.id == g.target.id:
+        S = ex.spec_eval(g.ifs[0].comparators[0], {})
+        if isinstance(S, SRef) and S.shape.cls in CONTAINERS and CONTAINERS[S.shape.cls][0] == 'set':
+            size = P.read_field(S, 'size').e
+            P.assume(z3.Implies(rng.hi > rng.lo, size >= rng.hi - rng.lo))
+            ex.root.call_log.append('finite-set cardinality: range(lo, hi) subset of S implies hi - lo <= |S| '
+                                      '(lemmas/SetCard.lean: range_subset_card)')
+    if default is None:
+        ex.raise_('StopIteration')
+    return default
+
+
 def b_set(ex, args, kw):
     """set(<generator `k for k in S if cond(k)` over a set/dict>): the subset"""
     if not args:
@@ -341,6 +387,8 @@ def b_set(ex, args, kw):
     src = gen.seq
     if type(src).__name__ == 'VView':
         src = src.d
+    if isinstance(src, SRef) and src.shape.cls in CONTAINERS and CONTAINERS[src.shape.cls][0] == 'list':
+        return set_of_list_gen(ex, gen, src)
     if not (isinstance(src, SRef) and src.shape.cls in CONTAINERS and CONTAINERS[src.shape.cls][0] in ('set', 'dict')):
         raise Unsupported('set() of a generator over %r' % (src,))
     g = gen.node.generators[0]
@@ -360,6 +408,35 @@ def b_set(ex, args, kw):
                        z3.And(has_src.shape.select(has_src, key).e, cond)))
     P.write_field(new, 'has', fresh_has)
     P.write_field(new, 'size', IntS.fresh('subset_size'))
+    return new
+
+
+def set_of_list_gen(ex, gen, lst):
+    """set(f(x) for x in <heap list> if cond(x)): the image.  S contains f of
+    every selected element; every member of S has a witness index (Skolem
+    function); |S| <= len(list) (cardinality of an image: Finset.card_image_le,
+    lemmas/SetCard.lean)"""
+    P = ex.path
+    ln = P.read_field(lst, 'len').e
+    j = z3.Int(fresh_name('j'))
+    item, cond, elt = gen.element(ex, j)
+    sample = elt()
+    kshape = sample.shape
+    from .shapes import set_of
+    new = alloc_container(ex, set_of(kshape))
+    has = container_fields(set_of(kshape).cls)['has'].fresh('image')
+    P.assume(z3.ForAll([j], z3.Implies(z3.And(j >= 0, j < ln, cond), has.shape.select(has, sample).e)))
+    key = kshape.fresh('v')
+    qs = kshape.unpack(key)
+    wit = z3.Function(fresh_name('wit'), *([q.sort() for q in qs] + [z3.IntSort()]))
+    wj = wit(*qs)
+    P.assume(z3.ForAll(qs, z3.Implies(has.shape.select(has, key).e, z3.And(
+        wj >= 0, wj < ln, z3.substitute(cond, (j, wj)), z3.substitute(ex.eq(sample, key), (j, wj))))))
+    size = IntS.fresh('image_size')
+    P.assume(z3.And(size.e >= 0, size.e <= ln))
+    ex.root.call_log.append('finite-set cardinality: |image of a list| <= len(list) (lemmas/SetCard.lean: card_image_le)')
+    P.write_field(new, 'has', has)
+    P.write_field(new, 'size', size)
     return new
 
 
